@@ -58,6 +58,127 @@ def coq_str(s):
     return '(' + ' ++ '.join(lits) + ')%string'
 
 
+# ======================================================================================================== canonicalisation
+# Behaviour-preserving idioms are normalised on the Python AST BEFORE translation, so that equivalent sources give the same
+# (or zeta/beta-equal) generated text:
+#   * docstrings / string-expression statements are dropped;
+#   * `return A if c else B`            = `if c: return A` / `else: return B`;
+#   * `if not c: X else: Y`, `if not c: return A` + rest   = the branches swapped under `c`;
+#   * a call of a private helper (method `self._h(..)`, module-level function) = its body with the parameters substituted
+#     (locals renamed apart); a helper with early returns used inside expressions becomes a nested def of the caller;
+#   * a `for` over a literal table (class/module constant tuple of tuples) = the unrolled statements;
+#   * `for x in IT: acc |= E` / `acc.update(E)` / `acc.extend(E)`  (E not mentioning acc)  and  `acc = acc.union(*(E for x in IT))`
+#     = `acc = acc ++ flat_map (fun x => E) IT`;
+#   * `{y for x in IT if (y := f(x))}`  = `filter(None, map(f, IT))`.
+import copy
+
+
+class _StripDoc(ast.NodeTransformer):
+    def _body(self, body):
+        out = [self.visit(x) for x in body]
+        out = [x for x in out if not (isinstance(x, ast.Expr) and isinstance(x.value, ast.Constant) and isinstance(x.value.value, str))]
+        return out or [ast.Pass()]
+
+    def generic_visit(self, node):
+        for f in ('body', 'orelse', 'finalbody'):
+            if hasattr(node, f) and isinstance(getattr(node, f), list) and getattr(node, f) and isinstance(getattr(node, f)[0], ast.stmt):
+                setattr(node, f, self._body(getattr(node, f)))
+        for f, val in ast.iter_fields(node):
+            if f in ('body', 'orelse', 'finalbody') and isinstance(val, list) and val and isinstance(val[0], ast.stmt):
+                continue
+            if isinstance(val, list):
+                setattr(node, f, [self.visit(x) if isinstance(x, ast.AST) else x for x in val])
+            elif isinstance(val, ast.AST):
+                setattr(node, f, self.visit(val))
+        return node
+
+
+def strip_docstrings(tree):
+    t = _StripDoc().visit(tree)
+
+    class DropPass(ast.NodeTransformer):
+        def visit_Pass(self, node):
+            return None
+    # a body that became empty keeps one `pass`; other `pass` statements are not in the subset anyway
+    return ast.fix_missing_locations(t)
+
+
+class _Subst(ast.NodeTransformer):
+    def __init__(self, mapping):
+        self.m = mapping
+
+    def visit_Name(self, node):
+        if node.id in self.m and isinstance(node.ctx, ast.Load):
+            return copy.deepcopy(self.m[node.id])
+        return node
+
+
+def subst_names(stmts, mapping):
+    return [ast.fix_missing_locations(_Subst(mapping).visit(copy.deepcopy(x))) for x in stmts]
+
+
+class _Rename(ast.NodeTransformer):
+    def __init__(self, mapping):
+        self.m = mapping
+
+    def visit_Name(self, node):
+        if node.id in self.m:
+            return ast.copy_location(ast.Name(id=self.m[node.id], ctx=node.ctx), node)
+        return node
+
+
+def stored_names(stmts):
+    out = []
+    for s in stmts:
+        for n in ast.walk(s):
+            if isinstance(n, ast.Name) and isinstance(n.ctx, ast.Store) and n.id not in out and n.id != '_':
+                out.append(n.id)
+    return out
+
+
+def is_simple_arg(a):
+    return isinstance(a, (ast.Name, ast.Constant)) or (isinstance(a, ast.Attribute) and is_simple_arg(a.value))
+
+
+def swap_nots(stmts):
+    """`if not c: A else: B` -> `if c: B else: A`;  `if not c: return X` followed by the rest -> `if c: rest else: return X`;
+    `return A if c else B` -> if/else.  Applied recursively."""
+    out = []
+    i = 0
+    stmts = list(stmts)
+    while i < len(stmts):
+        s = stmts[i]
+        if isinstance(s, ast.Return) and isinstance(s.value, ast.IfExp):
+            s = ast.If(test=s.value.test, body=[ast.Return(value=s.value.body)], orelse=[ast.Return(value=s.value.orelse)])
+        if isinstance(s, ast.If):
+            s = ast.If(test=s.test, body=swap_nots(s.body), orelse=swap_nots(s.orelse))
+            if isinstance(s.test, ast.UnaryOp) and isinstance(s.test.op, ast.Not):
+                ends_with_return = s.body and isinstance(s.body[-1], ast.Return)
+                if s.orelse:
+                    s = ast.If(test=s.test.operand, body=s.orelse, orelse=s.body)
+                elif ends_with_return and i + 1 < len(stmts):
+                    rest = swap_nots(stmts[i + 1:])
+                    out.append(ast.fix_missing_locations(ast.If(test=s.test.operand, body=rest, orelse=s.body)))
+                    return out
+        elif isinstance(s, (ast.For, ast.While, ast.With)):
+            s = copy.copy(s)
+            s.body = swap_nots(s.body)
+        elif isinstance(s, ast.FunctionDef):
+            s = copy.copy(s)
+            s.body = swap_nots(s.body)
+        out.append(ast.fix_missing_locations(s) if isinstance(s, ast.AST) else s)
+        i += 1
+    return out
+
+
+def literal_table(node):
+    """rows of a tuple/list of tuples of Names/Constants, or None"""
+    if isinstance(node, (ast.Tuple, ast.List)) and node.elts and all(
+            isinstance(r, ast.Tuple) and all(isinstance(c, (ast.Name, ast.Constant)) for c in r.elts) for r in node.elts):
+        return [r.elts for r in node.elts]
+    return None
+
+
 # ======================================================================================================== printer
 ITER_ELEM = {('Application', 'subterms'): 'term', ('VariableStatement', 'metavariables'): 'mv',
              ('DisjointStatement', 'metavariables'): 'mv', ('StructuredStatement', 'terms'): 'term',
@@ -175,9 +296,29 @@ class Printer:
             return '[]'
         return '(' + ' ++ '.join(out) + ')%list' if len(out) > 1 else out[0]
 
+    def helper_body(self, call):
+        """body of the private helper method `self._h(args)` with its parameters substituted by the arguments"""
+        name = call.func.attr
+        m = self.methods[name]
+        params = [a.arg for a in m.args.args][1:]
+        if call.keywords or len(params) != len(call.args) or m.args.vararg or m.args.kwarg or m.args.kwonlyargs or m.args.defaults \
+                or not all(is_simple_arg(a) for a in call.args):
+            fail(self.where, call, 'helper call outside the subset')
+        if any(isinstance(n, ast.Return) for x in m.body for n in ast.walk(x)):
+            fail(self.where, call, 'helper method with a return')
+        if set(stored_names(m.body)) & set(self.types):
+            fail(self.where, call, 'helper local would capture a loop variable')
+        return subst_names(m.body, dict(zip(params, call.args)))
+
     def stmt(self, s):
+        if isinstance(s, ast.Pass):
+            return None
         if isinstance(s, ast.Expr) and isinstance(s.value, ast.Constant) and isinstance(s.value.value, str):
             return None                                                   # docstring
+        if isinstance(s, ast.Expr) and isinstance(s.value, ast.Call) and isinstance(s.value.func, ast.Attribute) \
+                and isinstance(s.value.func.value, ast.Name) and s.value.func.value.id == 'self' \
+                and s.value.func.attr.startswith('_') and s.value.func.attr in self.methods:
+            return self.stmts(self.helper_body(s.value))
         if isinstance(s, ast.Expr) and isinstance(s.value, ast.Call) and isinstance(s.value.func, ast.Attribute) \
                 and isinstance(s.value.func.value, ast.Name) and s.value.func.value.id == 'self' \
                 and len(s.value.args) == 1 and not s.value.keywords:
@@ -247,14 +388,36 @@ class Printer:
             return self.stmts(s.body)
         fail(self.where, s, 'statement outside the subset')
 
+    def class_constant(self, name):
+        for n in self.classes['Encoder'].body:
+            t = n.targets[0] if isinstance(n, ast.Assign) and len(n.targets) == 1 else (n.target if isinstance(n, ast.AnnAssign) else None)
+            if isinstance(t, ast.Name) and t.id == name and n.value is not None:
+                return n.value
+        return None
+
     def fexpr(self, body):
-        """body made of if/elif/else whose branches return constants"""
-        s = body[0]
-        if isinstance(s, ast.Return) and len(body) == 1:
+        """statements that decide a constant: if/elif/else, early returns, a loop over a literal class-level table"""
+        body = [x for x in body if not isinstance(x, ast.Pass)]
+        if not body:
+            fail(self.where, self.methods['get_statement_type'], 'falls off the end')
+        s, rest = body[0], body[1:]
+        if isinstance(s, ast.Return) and not rest:
             return self.expr(s.value)
-        if isinstance(s, ast.If) and len(body) == 1 and s.orelse:
-            return f'(if {self.cond(s.test)} then {self.fexpr(s.body)} else {self.fexpr(s.orelse)})'
-        fail(self.where, s, 'get_statement_type is not an if/elif/else chain of returns')
+        if isinstance(s, ast.If):
+            if s.orelse and not rest:
+                return f'(if {self.cond(s.test)} then {self.fexpr(s.body)} else {self.fexpr(s.orelse)})'
+            if not s.orelse and rest and isinstance(s.body[-1], ast.Return):
+                return f'(if {self.cond(s.test)} then {self.fexpr(s.body)} else {self.fexpr(rest)})'
+        if isinstance(s, ast.For) and not s.orelse and isinstance(s.iter, ast.Attribute) and isinstance(s.iter.value, ast.Name) \
+                and s.iter.value.id == 'self' and isinstance(s.target, ast.Tuple) and all(isinstance(e, ast.Name) for e in s.target.elts):
+            rows = literal_table(self.class_constant(s.iter.attr))
+            if rows is None or any(len(r) != len(s.target.elts) for r in rows):
+                fail(self.where, s, 'loop over something that is not a literal class-level table')
+            unrolled = []
+            for r in rows:
+                unrolled += subst_names(s.body, {t.id: c for t, c in zip(s.target.elts, r)})
+            return self.fexpr(unrolled + rest)
+        fail(self.where, s, 'get_statement_type is not a chain of tests returning constants')
 
     def generate(self):
         out = []
@@ -329,6 +492,7 @@ class Metavars:
 
     def __init__(self, tree):
         self.classes = {n.name: n for n in tree.body if isinstance(n, ast.ClassDef)}
+        self.funcs = {n.name: n for n in tree.body if isinstance(n, ast.FunctionDef)}
 
     def find(self, cls):
         seen = set()
@@ -349,7 +513,15 @@ class Metavars:
         where = f'{owner}.get_metavariables'
         if [a.arg for a in m.args.args] != ['self']:
             fail(where, m, 'signature')
-        b = [x for x in m.body if not (isinstance(x, ast.Expr) and isinstance(x.value, ast.Constant))]
+        b = [x for x in m.body if not (isinstance(x, ast.Expr) and isinstance(x.value, ast.Constant)) and not isinstance(x, ast.Pass)]
+        # `return helper(self.attr)`: the module-level helper's body with its parameter substituted
+        if len(b) == 1 and isinstance(b[0], ast.Return) and isinstance(b[0].value, ast.Call) and isinstance(b[0].value.func, ast.Name) \
+                and b[0].value.func.id in self.funcs and not b[0].value.keywords:
+            h = self.funcs[b[0].value.func.id]
+            ps = [a.arg for a in h.args.args]
+            if len(ps) != len(b[0].value.args) or not all(is_simple_arg(a) for a in b[0].value.args) or h.args.defaults:
+                fail(where, b[0], 'helper call outside the subset')
+            b = subst_names([x for x in h.body if not isinstance(x, ast.Pass)], dict(zip(ps, b[0].value.args)))
         if len(b) == 1 and isinstance(b[0], ast.Return):
             r = b[0].value
             if isinstance(r, ast.Call) and isinstance(r.func, ast.Name) and r.func.id == 'set' and not r.args:
@@ -362,6 +534,8 @@ class Metavars:
                     and ast.unparse(r.elt) == r.generators[0].target.id + '.name':
                 return f'(map (fun {v(r.generators[0].target.id)} => mv_name {v(r.generators[0].target.id)}) {attr["metavariables"]})'
             fail(where, r, 'return expression outside the subset')
+        if len(b) == 3 and isinstance(b[0], ast.AnnAssign) and b[0].value is not None and isinstance(b[0].target, ast.Name):
+            b = [ast.Assign(targets=[b[0].target], value=b[0].value)] + b[1:]
         if len(b) == 3 and isinstance(b[0], ast.Assign) and isinstance(b[0].targets[0], ast.Name) \
                 and ast.unparse(b[0].value) == 'set()' and isinstance(b[1], ast.For) and not b[1].orelse \
                 and isinstance(b[1].target, ast.Name) and isinstance(b[2], ast.Return) \
@@ -446,6 +620,8 @@ class Slicer:
         self.dbparams = set()   # parameters of type Database (`.statements` is the identity)
         self.locals = set()
         self.maxiom_label = {}  # name bound by `:= match_axiom(..)` -> coq variable holding its label
+        self.anon = set()       # locals holding a formatted `$...` key (an anonymous dictionary entry)
+        self.pure = False       # translating a function that cannot raise: `return E` is E, not Some E
 
     def new(self, base='t'):
         self.fresh += 1
@@ -473,11 +649,11 @@ class Slicer:
             if n.attr in ATTRS:
                 return f'({ATTRS[n.attr]} {self.expr(n.value)})'
             fail(self.where, n, 'attribute outside the subset')
-        if isinstance(n, ast.Tuple):
+        if isinstance(n, (ast.Tuple, ast.List)):
             return self.seq(n)
         if isinstance(n, ast.Call):
             return self.call(n)
-        if isinstance(n, (ast.GeneratorExp, ast.ListComp)):
+        if isinstance(n, (ast.GeneratorExp, ast.ListComp, ast.SetComp)):
             return self.comp(n)
         if isinstance(n, ast.Subscript):
             if isinstance(n.slice, ast.Slice):
@@ -541,6 +717,10 @@ class Slicer:
         if len(n.generators) != 1 or n.generators[0].is_async or not isinstance(n.generators[0].target, ast.Name):
             fail(self.where, n, 'comprehension outside the subset')
         g = n.generators[0]
+        # {y for x in IT if (y := f(x))}  =  filter(None, map(f, IT))
+        if len(g.ifs) == 1 and isinstance(g.ifs[0], ast.NamedExpr) and isinstance(n.elt, ast.Name) \
+                and n.elt.id == g.ifs[0].target.id:
+            return f'(py_filter_none {self.map_call(g.target.id, g.ifs[0].value, g.iter)})'
         it = self.expr(g.iter)
         x = g.target.id
         had = x in self.locals
@@ -564,10 +744,46 @@ class Slicer:
             return it
         return f'(map (fun {v(x)} => {elt}) {it})'
 
+    def map_call(self, x, body, it):
+        """map (fun x => body) it, eta-reduced when body is `f(x)`"""
+        itc = self.expr(it)
+        if isinstance(body, ast.Call) and isinstance(body.func, ast.Name) and body.func.id in self.locals and not body.keywords \
+                and len(body.args) == 1 and isinstance(body.args[0], ast.Name) and body.args[0].id == x:
+            return f'(map {v(body.func.id)} {itc})'
+        had = x in self.locals
+        self.locals.add(x)
+        saved, self.pre = self.pre, []
+        b = self.expr(body)
+        if self.pre:
+            fail(self.where, body, 'fallible expression in a mapped function')
+        self.pre = saved
+        if not had:
+            self.locals.discard(x)
+        return f'(map (fun {v(x)} => {b}) {itc})'
+
+    def flat_map_of(self, x, body, it):
+        itc = self.expr(it)
+        had = x in self.locals
+        self.locals.add(x)
+        saved, self.pre = self.pre, []
+        b = self.expr(body)
+        if self.pre:
+            fail(self.where, body, 'fallible expression in a flat-mapped function')
+        self.pre = saved
+        if not had:
+            self.locals.discard(x)
+        return f'(flat_map (fun {v(x)} => {b}) {itc})'
+
     def call(self, n):
         if n.keywords:
             fail(self.where, n, 'keyword arguments')
         f = n.func
+        # X.union(*(E for x in IT))  =  X ++ flat_map (fun x => E) IT
+        if isinstance(f, ast.Attribute) and f.attr == 'union' and len(n.args) == 1 and isinstance(n.args[0], ast.Starred) \
+                and isinstance(n.args[0].value, (ast.GeneratorExp, ast.ListComp)) and len(n.args[0].value.generators) == 1 \
+                and not n.args[0].value.generators[0].ifs and isinstance(n.args[0].value.generators[0].target, ast.Name):
+            g = n.args[0].value.generators[0]
+            return f'({self.expr(f.value)} ++ {self.flat_map_of(g.target.id, n.args[0].value.elt, g.iter)})%list'
         if isinstance(f, ast.Name):
             a = n.args
             if f.id == 'isinstance' and len(a) == 2:
@@ -659,10 +875,15 @@ class Slicer:
 
         def cont():
             return self.block(rest, k, in_loop_tail)
-        if isinstance(s, ast.Expr) and isinstance(s.value, ast.Constant) and isinstance(s.value.value, str):
+        if isinstance(s, ast.Pass) or (isinstance(s, ast.Expr) and isinstance(s.value, ast.Constant) and isinstance(s.value.value, str)):
             return cont()
         if isinstance(s, ast.FunctionDef):
             return self.nested_def(s, cont)
+        if isinstance(s, ast.Assign) and len(s.targets) == 1 and isinstance(s.targets[0], ast.Name) and isinstance(s.value, ast.JoinedStr):
+            first = s.value.values[0] if s.value.values else None
+            if isinstance(first, ast.Constant) and isinstance(first.value, str) and first.value.startswith('$'):
+                self.anon.add(s.targets[0].id)        # a key no label can equal: only its freshness matters
+                return cont()
         if isinstance(s, (ast.Assign, ast.AnnAssign)):
             target = s.targets[0] if isinstance(s, ast.Assign) else s.target
             if isinstance(s, ast.Assign) and len(s.targets) != 1 or s.value is None:
@@ -670,7 +891,9 @@ class Slicer:
             if isinstance(target, ast.Subscript) and isinstance(target.value, ast.Name) and target.value.id in self.locals:
                 d = target.value.id
                 val = self.expr(s.value)
-                if isinstance(target.slice, ast.JoinedStr):
+                if isinstance(target.slice, ast.Name) and target.slice.id in self.anon:
+                    e = f'dict_add_anon {val} {v(d)}'
+                elif isinstance(target.slice, ast.JoinedStr):
                     first = target.slice.values[0] if target.slice.values else None
                     if not (isinstance(first, ast.Constant) and isinstance(first.value, str) and first.value.startswith('$')):
                         fail(self.where, s, 'formatted key that is not of the form $...')
@@ -727,6 +950,10 @@ class Slicer:
                 return 'None'
             e = self.pair(s.value) if (isinstance(s.value, ast.Tuple) and len(s.value.elts) == 2
                                        and not any(isinstance(x, ast.Starred) for x in s.value.elts)) else self.expr(s.value)
+            if self.pure:
+                if self.pre:
+                    fail(self.where, s, 'fallible expression in a function that cannot raise')
+                return e
             return self.flush(lambda: f'Some {e}' if not e.startswith('None') else 'None')
         if isinstance(s, ast.Continue):
             if rest or not in_loop_tail:
@@ -748,7 +975,7 @@ class Slicer:
         body = self.block(s.body, lambda: 'None')
         self.locals, self.where = saved_locals, saved_where
         self.locals.add(s.name)
-        ps = ' '.join(f'({v(p)} : string)' for p in params)
+        ps = ' '.join(v(p) for p in params)
         return f'let {v(s.name)} := fun {ps} =>\n  {body} in\n  {cont()}'
 
     def for_loop(self, s, cont):
@@ -762,13 +989,30 @@ class Slicer:
             if not had:
                 self.locals.discard(x)
             return self.flush(lambda: f'oassert (forallb (fun {v(x)} => {p}) {it}) (\n  {cont()})')
+        # `for x in IT: acc |= E` / `acc.update(E)` / `acc.extend(E)` with E not mentioning acc  =  acc ++ flat_map (fun x => E) IT
+        if len(s.body) == 1 and isinstance(s.target, ast.Name):
+            b0 = s.body[0]
+            acc = e0 = None
+            if isinstance(b0, ast.AugAssign) and isinstance(b0.op, ast.BitOr) and isinstance(b0.target, ast.Name):
+                acc, e0 = b0.target.id, b0.value
+            elif isinstance(b0, ast.Expr) and isinstance(b0.value, ast.Call) and isinstance(b0.value.func, ast.Attribute) \
+                    and b0.value.func.attr in ('update', 'extend') and isinstance(b0.value.func.value, ast.Name) and len(b0.value.args) == 1:
+                acc, e0 = b0.value.func.value.id, b0.value.args[0]
+            if acc is not None and acc in self.locals and acc != s.target.id \
+                    and not any(isinstance(n, ast.Name) and n.id == acc for n in ast.walk(e0)):
+                saved_pre = list(self.pre)
+                try:
+                    fm = self.flat_map_of(s.target.id, e0, s.iter)
+                    return self.flush(lambda: f'let {v(acc)} := ({v(acc)} ++ {fm})%list in\n  {cont()}')
+                except SystemExit:
+                    self.pre = saved_pre      # the body is fallible: fall through to the general fold
         it = self.expr(s.iter)
         pre_it, self.pre = self.pre, []      # bindings needed by the iterable come first
 
         def head(thunk):
             self.pre = pre_it + self.pre
             return self.flush(thunk)
-        state = self.assigned(s.body)
+        state = sorted(self.assigned(s.body), key=lambda x: (x == 'yielded__', x))
         if not state:
             fail(self.where, s, 'loop that changes nothing')
         if isinstance(s.target, ast.Name):
@@ -800,10 +1044,15 @@ class Slicer:
                 then = self.block(s.body, k)
                 return self.flush(lambda: f'if {c} then {then} else\n  {self.block(rest, k, in_loop_tail)}')
             c = self.expr(s.test)
+            if self.pure:
+                off = lambda: fail(self.where, s, 'a branch falls off the end of a function that cannot raise')  # noqa: E731
+                if not s.orelse or self.pre:
+                    off()
+                return f'if {c} then {self.block(s.body, off)} else {self.block(s.orelse, off)}'
             then = self.block(s.body, lambda: 'None')
             els = self.block(s.orelse, lambda: 'None') if s.orelse else 'None'
             return self.flush(lambda: f'if {c} then\n  {then}\n  else\n  {els}')
-        state = self.assigned([s])
+        state = sorted(self.assigned([s]), key=lambda x: (x == 'yielded__', x))
         st = [v(x) if x != 'yielded__' else x for x in state]
         after = (lambda: f'Some {tupv(st)}') if st else (lambda: 'Some tt')
 
@@ -842,22 +1091,95 @@ class Slicer:
         if got != [p for p, _ in params] or f.args.vararg or f.args.kwarg or f.args.kwonlyargs or f.args.defaults:
             fail(name, f, f'parameters changed (expected {[p for p, _ in params]})')
         self.where, self.locals, self.pre, self.okeys, self.maxiom_label = name, {p for p, _ in params}, [], set(), {}
+        self.anon, self.pure = set(), False
         self.dbparams = {p for p, t in params if t == 'database'}
         ps = ' '.join(f'({v(p)} : {t})' for p, t in params)
+        f = self.prepare(f)
         return f, ps
+
+    MAIN = {'construct_axiom', 'deconstruct_provable', 'supporting_database_for_provable', 'slice_database'}
+    NOT_HELPERS = MAIN | {'get_constants', 'statements_get_constants', 'deconstruct_compressed_proof', 'match_axiom',
+                          'dependency_graph', 'syntax_dependencies', 'transitive_closure', 'main', 'is_structured_statement'}
+
+    def prepare(self, f, depth=0):
+        """canonical form of a function: helpers inlined / hoisted, `not` tests swapped, ternary returns expanded,
+        set-valued names in tests made explicit"""
+        if depth > 4:
+            fail(f.name, f, 'helper nesting too deep')
+        f = copy.deepcopy(f)
+        helpers = {n for n in self.funcs if n not in self.NOT_HELPERS and n != f.name}
+        hoisted = {}
+
+        def simple_return(h):
+            top = [x for x in h.body if not isinstance(x, ast.FunctionDef)]
+            rets = [n for x in top for n in ast.walk(x) if isinstance(n, ast.Return)]
+            return len(rets) == 1 and top and top[-1] is rets[0] and rets[0].value is not None
+
+        def inline(stmt):
+            """`x = h(args)` with h a helper whose only return is its last statement"""
+            val = stmt.value if isinstance(stmt, (ast.Assign, ast.AnnAssign)) else None
+            if not (isinstance(val, ast.Call) and isinstance(val.func, ast.Name) and val.func.id in helpers):
+                return None
+            h = self.prepare(self.funcs[val.func.id], depth + 1)
+            if not simple_return(h):
+                return None
+            ps = [a.arg for a in h.args.args]
+            if val.keywords or len(ps) != len(val.args) or h.args.vararg or h.args.kwarg or h.args.kwonlyargs or h.args.defaults:
+                fail(f.name, stmt, 'helper call outside the subset')
+            body = [x for x in h.body if not isinstance(x, ast.FunctionDef)]
+            for x in h.body:
+                if isinstance(x, ast.FunctionDef):
+                    hoisted.setdefault(x.name, x)
+            ren = {n: f'{n}__{h.name}' for n in stored_names(body)}
+            pre = []
+            for p, a in zip(ps, val.args):
+                if isinstance(a, ast.Name):
+                    ren[p] = a.id
+                else:
+                    ren[p] = f'{p}__{h.name}'
+                    pre.append(ast.Assign(targets=[ast.Name(id=ren[p], ctx=ast.Store())], value=copy.deepcopy(a)))
+            body = [_Rename(ren).visit(copy.deepcopy(x)) for x in body]
+            target = stmt.targets[0] if isinstance(stmt, ast.Assign) else stmt.target
+            if not isinstance(body[-1], ast.Return):
+                fail(f.name, stmt, 'helper does not end with its return')
+            last = ast.Assign(targets=[copy.deepcopy(target)], value=body[-1].value)
+            return [ast.fix_missing_locations(x) for x in pre + body[:-1] + [last]]
+
+        def walk(stmts):
+            out = []
+            for st in stmts:
+                r = inline(st)
+                if r is not None:
+                    out += walk(r)
+                    continue
+                for fld in ('body', 'orelse'):
+                    if isinstance(st, (ast.For, ast.If, ast.With, ast.FunctionDef)) and getattr(st, fld, None):
+                        setattr(st, fld, walk(getattr(st, fld)))
+                out.append(st)
+            return out
+        f.body = walk(f.body)
+        # helpers that are still called (inside expressions): nested defs of the caller
+        for n in ast.walk(f):
+            if isinstance(n, ast.Call) and isinstance(n.func, ast.Name) and n.func.id in helpers and n.func.id not in hoisted:
+                h = self.prepare(self.funcs[n.func.id], depth + 1)
+                if h.args.vararg or h.args.kwarg or h.args.kwonlyargs or h.args.defaults:
+                    fail(f.name, n, 'helper signature outside the subset')
+                h.decorator_list = []
+                hoisted[h.name] = h
+        nested = [x for x in f.body if isinstance(x, ast.FunctionDef)]
+        for h in hoisted.values():
+            if h.name not in {x.name for x in nested}:
+                f.body.insert(0, h)
+        f.body = self.truthy_ifs(swap_nots(f.body))
+        return ast.fix_missing_locations(f)
 
     def generate(self):
         out = []
         f, ps = self.function('construct_axiom', [('antecedents', 'list stmt'), ('consequent', 'stmt')], 'stmt')
-        # if not antecedents: return A ; return B
-        if not (len(f.body) == 2 and isinstance(f.body[0], ast.If) and not f.body[0].orelse and len(f.body[0].body) == 1
-                and isinstance(f.body[0].body[0], ast.Return) and isinstance(f.body[1], ast.Return)
-                and isinstance(f.body[0].test, ast.UnaryOp) and isinstance(f.body[0].test.op, ast.Not)
-                and isinstance(f.body[0].test.operand, ast.Name) and f.body[0].test.operand.id == 'antecedents'):
-            fail('construct_axiom', f, 'body is not `if not antecedents: return A` / `return B`')
-        a = self.expr(f.body[0].body[0].value)
-        b = self.expr(f.body[1].value)
-        out.append(f'Definition construct_axiom {ps} : stmt :=\n  if is_nil v_antecedents then {a} else {b}.')
+        self.pure = True
+        body = self.block(f.body, lambda: fail('construct_axiom', f, 'falls off the end'))
+        self.pure = False
+        out.append(f'Definition construct_axiom {ps} : stmt :=\n  {body}.')
 
         f, ps = self.function('deconstruct_provable', [('statement', 'stmt')], 'option (list stmt * stmt)')
         body = self.block([self.rewrite_assert_not_axiom(s) for s in f.body], lambda: 'None')
@@ -866,7 +1188,7 @@ class Slicer:
         f, ps = self.function('supporting_database_for_provable',
                               [('cut_antecedents', 'dict'), ('syntax_deps', 'list (string * list string)'),
                                ('provable', 'stmt'), ('essentials', 'list stmt')], 'option database')
-        body = self.block(self.truthy_ifs(f.body), lambda: 'None')
+        body = self.block(f.body, lambda: 'None')
         out.append(f'Definition supporting_database_for_provable {ps} : option database :=\n  {body}.')
 
         f, ps = self.function('slice_database', [('input_database', 'database'), ('syntax_deps', 'list (string * list string)'),
@@ -888,7 +1210,7 @@ class Slicer:
             fail('slice_database', s, 'initialisation outside the subset')
         self.locals |= {x for x, _ in inits}
         it = self.expr(loop.iter)
-        state = [x for x in self.assigned(loop.body) if x != 'yielded__']
+        state = sorted(x for x in self.assigned(loop.body) if x != 'yielded__')
         if set(state) != {x for x, _ in inits}:
             fail('slice_database', loop, f'loop state {state} differs from the initialised variables')
         self.locals.add(loop.target.id)
@@ -945,7 +1267,7 @@ def generate(repo):
     a = open(os.path.join(repo, AST_PY)).read()
     s = open(os.path.join(repo, SLICE_PY)).read()
     try:
-        ta, ts = ast.parse(a), ast.parse(s)
+        ta, ts = strip_docstrings(ast.parse(a)), strip_docstrings(ast.parse(s))
     except SyntaxError as e:
         raise SystemExit(f'mm_print_slice: syntax error: {e}')
     text = HEADER.format(ast_py=AST_PY, slice_py=SLICE_PY)
